@@ -308,6 +308,24 @@ def whereNullPartition (c : Case) (r : Real) : Bool :=
   ((c.pred.map exprCols).getD []).any (fun k => parts.any (fun p => p.all (fun row => row.getD k .null == .null))) ||
   ((c.pred.map isNullCols).getD []).any (fun k => parts.any (fun p => p.all (fun row => row.getD k .null != .null)))
 
+/-- `where-null-partition-empty`, narrow form used when the REFERENCE answer is Overflow (so the failing layout cannot be
+    compared with rows): ONE non-empty partition `p` of the actual split in which
+    (a) the WHERE clause is planned as a constant — a column it reads is NULL in every row of `p`, or it applies IS [NOT] NULL
+        to a column without a NULL in `p` — so `filter.rs` plans `Empty` for every column read there, AND
+    (b) a column of the select list (aggregate input or grouping column) is stored NULLABLE in `p`: it has a NULL cell and a
+        non-NULL cell there (`empty` is reified for `Primitive` only: FatalError `empty not supported for type NullableU32/…`).
+    thorough seed 2001: `SELECT COUNT(c3), SUM(c1), COUNT(c4) FROM t WHERE c2 > 556593042`, split [20,4,9], rows 20..23 have
+    c2 = NULL throughout and c1 = -1, 65536, NULL, 128. -/
+def whereConstNullableSel (c : Case) (r : Real) : Bool :=
+  let parts := (splitRows r.split c.rows).filter (fun p => !p.isEmpty)
+  let wcols := (c.pred.map exprCols).getD []
+  let ncols := (c.pred.map isNullCols).getD []
+  let scols := c.sel.filterMap fun | .key k => some k | .agg a => if a.fn = .count1 then none else some a.col
+  parts.any fun p =>
+    (wcols.any (fun k => p.all (fun row => row.getD k .null == .null)) ||
+     ncols.any (fun k => p.all (fun row => row.getD k .null != .null))) &&
+    scols.any (fun k => p.any (fun row => row.getD k .null == .null) && p.any (fun row => row.getD k .null != .null))
+
 /-- `sum-sentinel` (C04/C06/C02): some SUM / MIN / MAX over an integer column has a partial result — over the rows of
     one group in one partition of this realisation, or over the whole group — equal to i64::MAX. -/
 def sentinelPartial (c : Case) (split : List Nat) : Bool :=
@@ -519,7 +537,11 @@ def classifyGrp (c : Case) (spec : Res (List Row)) (r : Real) : String :=
   | .overflow, some _ => if sentinelPartial c r.split then "sum-sentinel" else if may then "sum-overflow-order" else ""
   -- the reference fails with Overflow but this layout fails earlier with another error
   | .overflow, none =>
-      if absentSelected c r.split then "groupby-absent-column"
+      -- the WHERE is constant over a partition that stores a selected column nullable: planning that partition fails
+      -- (`empty not supported for type Nullable…`; grouped: worker panic `EmptyVector.cast_ref_mixed`) before any sum is formed
+      if whereConstNullableSel c r && (r.out = "err:fatal" || (c.kind = .grp && (r.out = "err:canceled" || r.out = "panic")))
+      then "where-null-partition-empty"
+      else if absentSelected c r.split then "groupby-absent-column"
       else ""
   | _, _ => ""
 
